@@ -150,6 +150,8 @@ func (m *Module) Materialise(root string) error {
 type DeferStep struct {
 	Body string `json:"body,omitempty"`
 	Res  string `json:"res,omitempty"`
+	// callbacks this callback registers (with Context.Defer) when it runs; gengo appends them to the queue
+	Nested []DeferStep `json:"nested,omitempty"`
 }
 
 // Step is what a scripted generator does when called for one (package, type).
@@ -194,9 +196,11 @@ type Event struct {
 }
 
 type WType struct {
-	Name    string   `json:"name"`
-	Kind    string   `json:"kind"` // named | alias | other
-	Enabled []string `json:"enabled,omitempty"`
+	Name string `json:"name"`
+	Kind string `json:"kind"` // named | alias | other
+	// the gengo:* tags of the declaration as Package.Doc reports them (key -> values); whether a generator is
+	// enabled is decided by the model (Model/Whole.v: Dispatch's IsGeneratorEnabled on the merged tags)
+	Tags map[string][]string `json:"tags,omitempty"`
 }
 type WPkg struct {
 	Path   string   `json:"path"`
@@ -288,16 +292,22 @@ func (s *state) call(name string, c gengo.Context, pkg, ty string) error {
 		k := strings.LastIndex(u, ".")
 		c.RenderT("var _ @x // "+fmt.Sprint(i)+"\n", snippet.Arg("x", snippet.PkgExpose(u[:k], u[k+1:])))
 	}
-	for i, d := range st.Defers {
-		d, id := d, i
+	var register func(c gengo.Context, d DeferStep, id int)
+	register = func(c gengo.Context, d DeferStep, id int) {
 		c.Defer(func(c gengo.Context) error {
 			logEvent(Event{Defer: true, Gen: name, Pkg: pkg, Type: ty, ID: id, Body: d.Body, Res: d.Res})
 			if d.Body != "" {
 				c.Render(snippet.Block(d.Body))
 			}
+			for j, n := range d.Nested {
+				register(c, n, id*10+j+1)
+			}
 			die(d.Res)
 			return resErr(d.Res)
 		})
+	}
+	for i, d := range st.Defers {
+		register(c, d, i)
 	}
 	logEvent(Event{Gen: name, Pkg: pkg, Type: ty, Body: body, Res: st.Res})
 	die(st.Res)
@@ -434,9 +444,12 @@ func LoadWorld(dir string, entry []string, gens []string) (*World, error) {
 				wt.Kind = "alias"
 			}
 			tags, _ := p.Doc(tn.Pos())
-			for _, g := range gens {
-				if _, ok := tags["gengo:"+g]; ok {
-					wt.Enabled = append(wt.Enabled, g)
+			for k, vs := range tags {
+				if strings.HasPrefix(k, "gengo:") {
+					if wt.Tags == nil {
+						wt.Tags = map[string][]string{}
+					}
+					wt.Tags[k] = append([]string{}, vs...)
 				}
 			}
 			wp.Types = append(wp.Types, wt)
@@ -715,8 +728,17 @@ func CoqWorld(w *World) string {
 		for _, t := range p.Types {
 			kind := map[string]string{"named": "KNamed", "alias": "KAlias", "other": "KOther"}[t.Kind]
 			var tags []string
-			for _, g := range t.Enabled {
-				tags = append(tags, "("+core.Hex("gengo:"+g)+", [[]])")
+			keys := make([]string, 0, len(t.Tags))
+			for k := range t.Tags {
+				keys = append(keys, k)
+			}
+			sort.Strings(keys)
+			for _, k := range keys {
+				var vs []string
+				for _, v := range t.Tags[k] {
+					vs = append(vs, core.Hex(v))
+				}
+				tags = append(tags, "("+core.Hex(k)+", "+core.CoqList(vs)+")")
 			}
 			tys = append(tys, fmt.Sprintf("(mk_ty %s %s %s)", core.Hex(t.Name), kind, core.CoqList(tags)))
 		}
@@ -727,6 +749,14 @@ func CoqWorld(w *World) string {
 		}
 	}
 	return fmt.Sprintf("(mk_world %s %s)", core.CoqList(pkgs), core.CoqList(direct))
+}
+
+func coqDefer(d DeferStep) string {
+	var nested []string
+	for _, n := range d.Nested {
+		nested = append(nested, coqDefer(n))
+	}
+	return "(SD " + core.Hex(d.Body) + " " + CoqRes(d.Res) + " " + core.CoqList(nested) + ")"
 }
 
 func CoqGens(gens []Gen) string {
@@ -743,7 +773,7 @@ func CoqGens(gens []Gen) string {
 			i := strings.Index(k, " ")
 			var dfs []string
 			for _, d := range st.Defers {
-				dfs = append(dfs, "("+core.Hex(d.Body)+", "+CoqRes(d.Res)+")")
+				dfs = append(dfs, coqDefer(d))
 			}
 			steps = append(steps, fmt.Sprintf("((%s, %s), mk_step %s %s %s %s %s)", core.Hex(k[:i]), core.Hex(k[i+1:]),
 				core.Hex(st.Body), CoqRes(st.Res), core.CoqBool(st.Count), core.CoqBool(st.Helper), core.CoqList(dfs)))
